@@ -115,9 +115,22 @@ func setColor(n *graph.Node, colors graph.NodeMap, roots graph.NodeMap, priority
 	return root, max(n.W, rootw)
 }
 
-// one run of this routine is O(2n); by placing the recursive call at the end behind a boolean flag, it runs again only once for
-// all remaining overlaps. Therefore it becomes O(2*(1+k)*n) where k is the number of times any overlap is found.
+// one run of shiftBlocks is O(2n); it runs again only once for all remaining overlaps.
+// Therefore it becomes O(2*(1+k)*n) where k is the number of times any overlap is found, with k <= maxshifts.
 func placeBlock(g *graph.DGraph, layerMaxLen int, spacing float64, blockmax, blockwidth, xcoord graph.NodeFloatMap, roots graph.NodeMap) {
+	// every run settles at least one more block for good, unless two blocks must each be placed to the right of
+	// the other (on different layers): then shifting would go on forever. Acyclic constraints settle within |V| runs.
+	maxshifts := len(g.Nodes)
+	for k := 0; k <= maxshifts; k++ {
+		if !shiftBlocks(g, layerMaxLen, spacing, blockmax, blockwidth, xcoord, roots) {
+			return
+		}
+	}
+}
+
+// places all nodes at their block's x coordinate, then shifts overlapping nodes (and their blocks) to the right.
+// It reports whether anything was shifted.
+func shiftBlocks(g *graph.DGraph, layerMaxLen int, spacing float64, blockmax, blockwidth, xcoord graph.NodeFloatMap, roots graph.NodeMap) bool {
 	for _, n := range g.Nodes {
 		x := blockmax[roots[n]]
 		xcoord[n] = max(x, x+(blockwidth[roots[n]]-n.W)/2)
@@ -150,9 +163,7 @@ func placeBlock(g *graph.DGraph, layerMaxLen int, spacing float64, blockmax, blo
 			}
 		}
 	}
-	if shift {
-		placeBlock(g, layerMaxLen, spacing, blockmax, blockwidth, xcoord, roots)
-	}
+	return shift
 }
 
 func crosses(e, f *graph.Edge) bool {
